@@ -18,10 +18,15 @@
       (no scroll): rows above the origin and the scrollback are untouched, rows from the origin show the array, the rest
       is blank, 0 is returned, the origin stays, the cursor is on (origin + row, col), `Rel` holds again.
   C07_history_fits_partial  by induction: any sequence of fitting renders.
-  Missing for the full statement: the terminal-level effect of the scroll loop (`scrollDown` = decsc, cup, lf, decrc
-  appends one blank row to `full`; the line is then written on the bottom row) together with coherence of the
-  re-keyed cache (`k-1`).  The correspondence check (props/c07.py) covers exactly that part on every run: the model's
-  operations equal the real writes and the oracle checks (a)-(g) on histories with scrolling.
+  C07_scroll_step_partial / C07_scroll_iter_partial   proved: on the terminal spec one `scroll_down` (decsc, cup 1000000 0,
+      lf, decrc) on the main screen appends the top row to the scrollback, moves every row up, leaves a blank bottom
+      row and restores cursor/pending-wrap/graphic state (needs h <= 1000001: the constant in the code); followed by
+      the write on the bottom row, the bottom row shows the line.  So each iteration appends exactly one row to
+      `full` and alters nothing above.
+  Missing for the full statement: the induction gluing these iterations to the fitting part (the loop invariant
+  "`full` = old prefix ++ array rows so far" in list form) and coherence of the re-keyed cache (`k-1`) for (g).
+  The correspondence check (props/c07.py) covers that part on every run: the model's operations equal the real
+  writes and the oracle checks (a)-(g) on histories with scrolling.
 
   Hypotheses: array rows ESC-free and at most as wide as the terminal (the docstring: wider rows are "rendered anyway");
   cursor_pos designates a cell of the array; default background when the render starts.
@@ -401,5 +406,70 @@ theorem C07_history_fits_partial (steps : List (List FmtStr × (Nat × Nat))) :
 /-- non-vacuity: a 3x3 screen with a line of prior output, the window entered on row 1 -/
 example : Rel { top := 1 } { h := 3, w := 3, r := 1, grid := fun r _ => if r = 0 then ('$', {}) else blank } :=
   ⟨fun _ _ h => by simp [get_nil] at h, by decide, rfl, fun h => by simp at h⟩
+
+
+/-! ### the scroll loop on the terminal spec: one iteration -/
+
+/-- One `scroll_down` on the terminal spec (main screen, default background, at most 1000001 rows — the constant in
+    `t.location(x=0, y=1000000)`): the top row goes to scrollback, every row moves up, the bottom row is blank, and
+    cursor, pending wrap and graphic state are exactly as before.  In terms of `full`: one blank row is appended. -/
+theorem C07_scroll_step_partial (t : Term) (hh : 0 < t.h) (hmax : t.h ≤ 1000001) (hmain : t.alt = none)
+    (hbg : t.g.bg = none) (hr : t.r < t.h) (hc : t.c < t.w) :
+    (exec t scrollDown).scrollback = t.scrollback ++ [t.row 0] ∧
+    (∀ r c, (exec t scrollDown).grid r c = if r + 1 < t.h then t.grid (r + 1) c else blank) ∧
+    (exec t scrollDown).r = t.r ∧ (exec t scrollDown).c = t.c ∧ (exec t scrollDown).pw = t.pw ∧
+    (exec t scrollDown).g = t.g ∧ (exec t scrollDown).h = t.h ∧ (exec t scrollDown).w = t.w ∧
+    (exec t scrollDown).alt = t.alt ∧ (exec t scrollDown).cursorVisible = t.cursorVisible := by
+  have a1 : min 1000000 (t.h - 1) = t.h - 1 := by omega
+  have a2 : ¬ (t.h - 1 + 1 < t.h) := by omega
+  have a3 : min t.r (t.h - 1) = t.r := by omega
+  have a4 : min t.c (t.w - 1) = t.c := by omega
+  have a5 : (' ', ({ bg := t.g.bg } : Eff)) = blank := by rw [hbg]; rfl
+  simp [scrollDown, Term.step, Term.index, Term.scrollUp, Term.erased, Term.row, a1, a2, a3, a4, a5, hmain]
+
+/-- One iteration of the scroll loop on the terminal spec: `scroll_down`, move to the bottom row, write the line
+    (no clear needed: the row just scrolled in is blank).  Every row moves up one, the old top row is appended to the
+    scrollback, and the bottom row shows the line. -/
+theorem C07_scroll_iter_partial (t : Term) (line : FmtStr) (hh : 0 < t.h) (hmax : t.h ≤ 1000001) (hmain : t.alt = none)
+    (hbg : t.g.bg = none) (hr : t.r < t.h) (hc : t.c < t.w) (hesc : EscFree line) (hlen : len line ≤ t.w) :
+    let t' := exec t (scrollDown ++ [.cup ((t.h : Int) - 1).toNat 0, .putStr (render line)])
+    t'.scrollback = t.scrollback ++ [t.row 0] ∧
+    (∀ r c, r < t.h → c < t.w → t'.grid r c = if r + 1 < t.h then t.grid (r + 1) c else (effCells line)[c]?.getD blank) ∧
+    t'.h = t.h ∧ t'.w = t.w ∧ t'.alt = t.alt ∧ t'.cursorVisible = t.cursorVisible ∧ t'.g.bg = none := by
+  intro t'
+  obtain ⟨s1, s2, _, _, _, _, s7, s8, s9, s10⟩ := C07_scroll_step_partial t hh hmax hmain hbg hr hc
+  have e : t' = exec (exec t scrollDown) [.cup (t.h - 1) 0, .put (effCells line) {}] := by
+    show exec t _ = _
+    rw [exec_append, putStr_render line hesc]
+    have : ((t.h : Int) - 1).toNat = t.h - 1 := by omega
+    rw [this]
+  generalize exec t scrollDown = t1 at s1 s2 s7 s8 s9 s10 e
+  let t2 : Term := { t1 with r := t.h - 1, c := 0, pw := false }
+  have e1 : t1.step (.cup (t.h - 1) 0) = t2 := by
+    have a : min (t.h - 1) (t1.h - 1) = t.h - 1 := by rw [s7]; omega
+    simp [Term.step, a, t2]
+  obtain ⟨f, g, r, gr, _⟩ := putCells (effCells line) t2 rfl (by
+    show 0 + (effCells line).length ≤ t1.w
+    rw [effCells_length, s8]; omega)
+  have e2 : t' = { (effCells line).foldl Term.putCell t2 with g := {} } := by
+    rw [e]; simp only [exec_cons, exec_nil, e1]; rfl
+  rw [e2]
+  refine ⟨by show ((effCells line).foldl Term.putCell t2).scrollback = _; rw [f.sb]; exact s1, ?_,
+    by show ((effCells line).foldl Term.putCell t2).h = _; rw [f.h]; exact s7,
+    by show ((effCells line).foldl Term.putCell t2).w = _; rw [f.w]; exact s8,
+    by show ((effCells line).foldl Term.putCell t2).alt = _; rw [f.alt]; exact s9,
+    by show ((effCells line).foldl Term.putCell t2).cursorVisible = _; rw [f.vis]; exact s10, rfl⟩
+  intro r' c hrh hcw
+  show ((effCells line).foldl Term.putCell t2).grid r' c = _
+  rw [gr]
+  show (if r' = t.h - 1 ∧ 0 ≤ c ∧ c < 0 + (effCells line).length then (effCells line)[c - 0]?.getD blank else t1.grid r' c) = _
+  rw [s2]
+  by_cases h1 : r' + 1 < t.h
+  · have h2 : ¬ (r' = t.h - 1 ∧ 0 ≤ c ∧ c < 0 + (effCells line).length) := by omega
+    simp only [h1, h2, if_true, if_false]
+  · simp only [if_neg h1]
+    by_cases h2 : c < (effCells line).length
+    · rw [if_pos (by omega)]; simp
+    · rw [if_neg (by omega), List.getElem?_eq_none (Nat.le_of_not_lt h2)]; rfl
 
 end Curtsies
